@@ -53,10 +53,10 @@ func c25Scalar(seed int) [32]byte {
 		for i := range k {
 			k[i] = 0xFF
 		}
-	case 2:
-		k[0] = 1
+	case 2: // smallest scalar that survives clamping besides the forced top bit
+		k[0] = 8
 	case 3:
-		k[31] = 0x80
+		k[31] = 0x41
 	default:
 		k = sha256.Sum256([]byte(fmt.Sprintf("C25-client-scalar-%d", seed)))
 	}
@@ -362,12 +362,16 @@ func c25Tampers(pkt *frame.SendPacket, other *frame.SendPacket, thorough bool, e
 		emit(c25Tamper{Kind: "ciphertext-raw-bit", Index: bit}, c)
 	}
 	// (3) other payload shapes
+	block := raw
+	if len(block) > 16 {
+		block = raw[:16]
+	}
 	shapes := map[string][]byte{
 		"empty":            {},
 		"nil":              nil,
-		"drop-last-block":  []byte(base64.StdEncoding.EncodeToString(raw[:len(raw)-16])),
-		"drop-first-block": []byte(base64.StdEncoding.EncodeToString(raw[16:])),
-		"append-block":     []byte(base64.StdEncoding.EncodeToString(append(append([]byte(nil), raw...), raw[:16]...))),
+		"drop-last-block":  []byte(base64.StdEncoding.EncodeToString(raw[:max(len(raw)-16, 0)])),
+		"drop-first-block": []byte(base64.StdEncoding.EncodeToString(raw[min(16, len(raw)):])),
+		"append-block":     []byte(base64.StdEncoding.EncodeToString(append(append([]byte(nil), raw...), block...))),
 		"other-packet":     other.Payload,
 		"plaintext":        []byte("plain"),
 		"trailing-newline": append(append([]byte(nil), pkt.Payload...), '\n'),
@@ -397,8 +401,8 @@ func c25Tampers(pkt *frame.SendPacket, other *frame.SendPacket, thorough bool, e
 		c.MsgKey = string(k)
 		emit(c25Tamper{Kind: "msgkey-bit", Index: bit}, c)
 	}
-	keyShapes := []string{"", strings.ToUpper(pkt.MsgKey), pkt.MsgKey[:31], pkt.MsgKey + "0", pkt.MsgKey + " ", " " + pkt.MsgKey, other.MsgKey,
-		strings.Repeat("0", 32), pkt.MsgKey[1:] + pkt.MsgKey[:1], pkt.MsgKey + "\x00"}
+	keyShapes := []string{"", strings.ToUpper(pkt.MsgKey), pkt.MsgKey[:max(len(pkt.MsgKey)-1, 0)], pkt.MsgKey + "0", pkt.MsgKey + " ", " " + pkt.MsgKey, other.MsgKey,
+		strings.Repeat("0", 32), pkt.MsgKey[min(1, len(pkt.MsgKey)):] + pkt.MsgKey[:min(1, len(pkt.MsgKey))], pkt.MsgKey + "\x00"}
 	seenKey := map[string]bool{pkt.MsgKey: true}
 	for i, k := range keyShapes {
 		if seenKey[k] {
